@@ -6,6 +6,7 @@ import CheetahModel.DriverDual
 import CheetahModel.DriverDiag
 import CheetahModel.DriverSC
 import CheetahModel.DriverSer
+import CheetahModel.DriverText
 /-!
 # Line-protocol driver
 
@@ -36,6 +37,10 @@ def handle (line : String) : String :=
     match DrvSer.run rest with
     | some out => out
     | none => "ERR ser-parse"
+  | "txt" :: rest =>
+    match DrvText.run rest with
+    | some out => out
+    | none => "ERR txt-parse"
   | op :: args =>
     match args.mapM parseF with
     | none => s!"ERR bad-arg {op}"
